@@ -90,6 +90,23 @@ func StepProcess(m *Machine, md *Model, o Op, step int) (mm *Mismatch, ok bool) 
 		if len(o.A) > 0 {
 			mode = o.A[0]
 		}
+		if mode == 4 {
+			// the process ends WITHOUT Close: data flushed and hint splits dumped by the background loops,
+			// but no final hint/tree dump; the next start loads the old tree dump and replays newer hints
+			m.S.Drain()
+			m.St.VerifFlush(true)
+			m.St.VerifDump()
+			m.S.Drain()
+			m.Exit()
+			if err := m.Open(); err != nil {
+				return &Mismatch{Step: step, Op: o.String(), Where: "open", Want: "opens", Got: err.Error(), Class: "open-error"}, true
+			}
+			if m.AutoDrain {
+				m.S.Drain()
+			}
+			Adopt(m, md)
+			return nil, true
+		}
 		err := m.CleanRestart(func(p string, i int) bool {
 			switch {
 			case mode == 0:
